@@ -3,6 +3,7 @@ from lib import pipeline
 from lib.props.c08 import parse_view, reach
 
 LEVEL = "proof"
+RELEASE_TOO = True
 MODEL_FILES = ["Model/View.v", "Model/ShortestM.v", "Model/AlgoIO.v"]
 THEOREMS = []
 EXTRA_PROPS = ["C11b"]
